@@ -203,14 +203,15 @@ func (d *DBI) Next() (kv KV, err error) {
 	}
 	// Get the length
 	v, n, err := csproto.DecodeVarint(d.data[offset:])
-	size := int(v)
 	if err != nil {
 		return kv, err
 	}
 	offset += n
-	if len(d.data)-offset < size {
+	// Compare as uint64: a size that does not fit in an int must not wrap around
+	if uint64(len(d.data)-offset) < v {
 		return kv, fmt.Errorf("remaining data to short for indicated size")
 	}
+	size := int(v)
 
 	// Unmarshal the data
 	b := d.data[offset : offset+size : offset+size]
@@ -249,16 +250,17 @@ func (d *DBI) indexData() error {
 			}
 			// Get the length
 			v, n, err := csproto.DecodeVarint(data[offset:])
-			size := int(v)
 			if err != nil {
 				return err
 			}
 			offset += n
 
 			// Actual data
-			if len(data)-offset < size {
+			// Compare as uint64: a size that does not fit in an int must not wrap around
+			if uint64(len(data)-offset) < v {
 				return fmt.Errorf("remaining data to short for indicated size")
 			}
+			size := int(v)
 			b := data[offset : offset+size : offset+size]
 			switch tag {
 			case FieldDBIEntries:
